@@ -39,7 +39,7 @@ def load_bytes(IndxIO, data, path):
         return IndxIO.load(f)
 
 
-def file_event(IndxIO, tid, arity, common, ents, wd, index=None, cuts=True, unique=False):
+def file_event(IndxIO, tid, arity, common, ents, wd, index=None, cuts=True, unique=False, presave=None):
     """save(ents) -> bytes; load(bytes); load(bytes[:k]) for every k."""
     import numpy as np
     path = os.path.join(wd, ("u%d.indx" % tid) if unique else ("f%d.indx" % (tid % 64)))
@@ -64,13 +64,27 @@ def file_event(IndxIO, tid, arity, common, ents, wd, index=None, cuts=True, uniq
             entries[key(c)] = np.array(r, dtype=np.uint32)
     ev = {"tid": tid, "kind": "file", "x": xjson(arity, common, ents), "rws": 4, "saveexc": False, "bytes": [],
           "loaded": BAD, "accepted": [], "rebuilt": True}
-    try:
-        with open(path, "wb") as f:
-            IndxIO.save(f, entries, common, np.dtype(np.uint32))
-    except Exception as e:  # noqa
-        ev["saveexc"] = True
-        ev["excmsg"] = "%s: %s" % (type(e).__name__, e)
-        return ev
+    if presave is not None:
+        # two-phase use (concurrent_file_events): phase "save" only writes the file, phase "judge" picks it up
+        if presave == "save":
+            try:
+                with open(path, "wb") as f:
+                    IndxIO.save(f, entries, common, np.dtype(np.uint32))
+                return None
+            except Exception as e:  # noqa
+                return "%s: %s" % (type(e).__name__, e)
+        if isinstance(presave, str) and presave != "judge":
+            ev["saveexc"] = True
+            ev["excmsg"] = presave
+            return ev
+    else:
+        try:
+            with open(path, "wb") as f:
+                IndxIO.save(f, entries, common, np.dtype(np.uint32))
+        except Exception as e:  # noqa
+            ev["saveexc"] = True
+            ev["excmsg"] = "%s: %s" % (type(e).__name__, e)
+            return ev
     data = open(path, "rb").read()
     ev["bytes"] = list(data)
     try:
@@ -98,19 +112,27 @@ def file_event(IndxIO, tid, arity, common, ents, wd, index=None, cuts=True, uniq
     return ev
 
 
-def concurrent_file_events(IndxIO, cases, wd, tid0, threads=4):
-    """the same saves issued from several threads at once (1 microsecond switch interval): each file must still be the
-    layout of ITS data. cases: list of (arity, common, ents); returns file events without the truncation sweep."""
+def concurrent_file_events(IndxIO, cases, wd, tid0, threads=8):
+    """the same saves issued from several threads at once (1 microsecond switch interval, nothing but saves in the
+    threads so that they overlap as much as possible): each file must still be the layout of ITS data. Afterwards the
+    files are judged one by one like any other save (without the truncation sweep). cases: list of (arity, common, ents)."""
     import sys
     from multiprocessing.pool import ThreadPool
+    jobs = list(enumerate(cases, 1))
     old = sys.getswitchinterval()
     sys.setswitchinterval(1e-6)
     try:
         with ThreadPool(threads) as pool:
-            evs = pool.map(lambda q: file_event(IndxIO, tid0 + q[0], q[1][0], q[1][1], q[1][2], wd, cuts=False, unique=True),
-                           list(enumerate(cases, 1)))
+            outcomes = pool.map(lambda q: file_event(IndxIO, tid0 + q[0], q[1][0], q[1][1], q[1][2], wd, cuts=False, unique=True, presave="save"), jobs)
     finally:
         sys.setswitchinterval(old)
+    evs = []
+    for (k, (arity, common, ents)), out in zip(jobs, outcomes):
+        evs.append(file_event(IndxIO, tid0 + k, arity, common, ents, wd, cuts=False, unique=True, presave="judge" if out is None else out))
+        try:
+            os.unlink(os.path.join(wd, "u%d.indx" % (tid0 + k)))
+        except OSError:
+            pass
     return evs
 
 
